@@ -204,3 +204,27 @@ func vh_parse6_nopanic() {
 	env.e.HandlePacket(&env.r, vhPkt(b, vnChoice("split", 2)*44))
 	vreach("parsed")
 }
+
+// ---------- C06: emitted IPv6 packets ----------
+func vh_emit_ipv6() {
+	env := vhNewEnv()
+	n := vnChoice("hdrlen", 3) * 8
+	m := vnChoice("paylen", 4)
+	hdr := buffer.NewPrependable(40 + n)
+	th := hdr.Prepend(n)
+	copy(th, vnBytes("thdr", n))
+	payload := vnBytes("payload", m)
+	var vv buffer.VectorisedView
+	if m > 0 {
+		vv = buffer.View(payload).ToVectorisedView()
+	}
+	ttl, proto := vnU8("ttl"), vnU8("proto")
+	err := env.e.WritePacket(&env.r, hdr, vv, tcpip.TransportProtocolNumber(proto), ttl)
+	vassert(err == nil && len(env.link.Sent) == 1, "one packet is handed to the link layer")
+	f := env.link.Sent[0]
+	h := f.Hdr
+	vassert(f.Proto == ProtocolNumber && len(h) == 40+n && h[0]>>4 == 6, "IPv6 header in front of the transport header")
+	vassert(int(h[4])<<8|int(h[5]) == n+m && h[6] == proto && h[7] == ttl, "payload length = transport header + payload; next header and hop limit as requested")
+	vassert(vhSame(h[8:24], []byte(vhLocal)) && vhSame(h[24:40], []byte(vhRemote)), "source = the route's local address, destination = its remote address")
+	vreach("ipv6")
+}
